@@ -3,7 +3,6 @@ package main
 import (
 	"fmt"
 
-	"golang.org/x/tools/go/ssa"
 	"os"
 	"path/filepath"
 	"sort"
@@ -331,13 +330,15 @@ func editDistance(a, b string) int {
 func effectKey(f *FuncFacts, e *Event) string {
 	k := e.Full() + " when " + strings.Join(f.eventContext(e), " && ")
 	set := map[string]bool{}
-	for _, g := range f.Guards() {
-		if g.blk != e.blk && g.blk.Dominates(e.blk) {
-			code := g.Code
-			if len(code) > 60 {
-				code = code[:60]
+	for ff, ev := f, e; ev != nil; ff, ev = ev.inl, ev.inner {
+		for _, g := range ff.Guards() {
+			if g.blk != ev.blk && g.blk.Dominates(ev.blk) && !g.noAfter {
+				code := g.Code
+				if len(code) > 60 {
+					code = code[:60]
+				}
+				set[code] = true
 			}
-			set[code] = true
 		}
 	}
 	if len(set) > 0 {
@@ -444,20 +445,8 @@ func checkEffects(p *Program, r *Report, f *FuncFacts, sp *guardSpec, sfn string
 		}
 		bad := ""
 		for _, b := range bs {
-			// blocks reachable from b's block (strictly after b)
-			seen := map[*ssa.BasicBlock]bool{}
-			stack := append([]*ssa.BasicBlock{}, b.blk.Succs...)
-			for len(stack) > 0 {
-				x := stack[len(stack)-1]
-				stack = stack[:len(stack)-1]
-				if seen[x] {
-					continue
-				}
-				seen[x] = true
-				stack = append(stack, x.Succs...)
-			}
 			for _, a := range as {
-				if (a.blk == b.blk && a.idx > b.idx) || seen[a.blk] {
+				if evCanFollow(a, b) {
 					bad = fmt.Sprintf("%s can execute after %s", p.pos(a.Pos), p.pos(b.Pos))
 				}
 			}
